@@ -9,7 +9,8 @@
 //   put_last   put the node this thread acquired most recently; if it owns none, behaves as get
 //
 // The framework's O lines therefore do not carry the real operation (`O t i r put_any : 1 3` = "put node 3",
-// `O t i r put_any : 0 2` = "owned nothing, did a get that returned node 2", `: 0 0` = get returned empty);
+// `O t i r put_any : 0 2` = "owned nothing, did a get that returned node 2", `: 0 0` = get returned empty,
+// `: -1` = skipped because an oracle had already failed);
 // spec() is "none" and the client judges the run itself:
 //
 //   double-hand-out       get() returned a node that is currently owned by a thread (exact: the ownership map is
@@ -17,8 +18,8 @@
 //   invented              get() returned a pointer that is not one of the nodes
 //   empty-while-nonempty  (strict variants only: tagged, cached*_tagged; `--strict 1` forces it for all, `--strict 0`
 //                         disables it) get() returned nullptr although some node was in the bag during the whole
-//                         call (its put() had returned before the get() was invoked and nobody obtained it until the
-//                         get() returned).  FreeList defers the insertion of a node that is still referenced by a
+//                         call (its put() had returned before the get() was invoked, nobody obtained it until the
+//                         get() returned and no get() still in progress can have unlinked it).  FreeList defers the insertion of a node that is still referenced by a
 //                         concurrent get(), so it does not promise this; such events are only counted (`# cov`).
 //   at quiescence (finish(), main thread): the list is drained with get(); exactly the nodes that were put and not
 //   taken must come out: lost-node / duplicate-on-drain / double-hand-out / drain-not-terminating / not-empty-after-drain
@@ -44,12 +45,35 @@ namespace ci = cds::intrusive;
 static const int MAXN = 6;
 static const int MAXTH = 16;
 
+// CachedFreeList picks its cache cell by hashing the OS thread id, which differs from one process run to the next
+// (a case of a cached variant would not replay).  The hash -- environment, not algorithm -- is therefore replaced
+// by a slot number chosen by the client per case and thread (explicit specialisations of the private get_hash(),
+// possible because the harness is compiled with -fno-access-control).  `--slots real` restores the original expression.
+static bool g_real_slots = false;
+static thread_local size_t tl_slot = 0;       // the main thread (set-up, quiescent drain) uses slot 0
+typedef ci::CachedFreeList<ci::FreeList, 4> cached4_fl;
+typedef ci::CachedFreeList<ci::TaggedFreeList, 4> cached4_tg;
+typedef ci::CachedFreeList<ci::FreeList, 8, 8> cached8_fl;
+typedef ci::CachedFreeList<ci::TaggedFreeList, 8, 8> cached8_tg;
+#define KHIZMAX_SLOT_HASH( T ) \
+    template <> size_t T::get_hash() \
+    { \
+        return ( g_real_slots ? std::hash<std::thread::id>()( std::this_thread::get_id()) : tl_slot ) & ( c_cache_size - 1 ); \
+    }
+namespace cds { namespace intrusive {
+    KHIZMAX_SLOT_HASH( cached4_fl )
+    KHIZMAX_SLOT_HASH( cached4_tg )
+    KHIZMAX_SLOT_HASH( cached8_fl )
+    KHIZMAX_SLOT_HASH( cached8_tg )
+}}
+
 struct IFree {
     virtual ~IFree() {}
     virtual void put( int v ) = 0;
     virtual int get() = 0;              // 0 = empty, -1 = unknown pointer, else the node's number
     virtual bool empty() = 0;
     virtual size_t cache_size() const { return 0; }
+    bool poisoned = false;              // an oracle has failed: the structure may be corrupted, do not walk it any more
 };
 
 // symbolic names for traces
@@ -106,7 +130,7 @@ struct FL : IFree {
     }
     ~FL()
     {
-        fl->clear( []( node_t* ) {} );
+        if ( !poisoned ) fl->clear( []( node_t* ) {} );
         fl.reset();
     }
     void put( int v ) override { fl->put( static_cast<node_t*>( items[size_t( v - 1 )].get())); }
@@ -141,6 +165,7 @@ struct Fixture {
     int owner[MAXN + 1];            // -1 = in the bag, else the owning thread
     int putting[MAXN + 1];          // number of put() calls of this node that have not returned yet
     unsigned gen[MAXN + 1];         // incremented each time the node is handed out
+    int getting = 0;                // get() calls in progress
     std::deque<int> own[MAXTH];     // nodes owned by a thread, in acquisition order
 
     // self-recorded history
@@ -151,7 +176,9 @@ struct Fixture {
     size_t slots[MAXTH];
     int nthreads = 0;
 
-    void fail( std::string const& s ) { failed = true; if ( failure.empty()) failure = s; }
+    // After the first verdict the structure is not touched any more (a corrupted list may make later calls spin,
+    // and the framework's abort path would not print the verdict).
+    void fail( std::string const& s ) { failed = true; if ( failure.empty()) failure = s; L->poisoned = true; }
 
     explicit Fixture( Case const& c ) : variant( c.variant )
     {
@@ -162,17 +189,25 @@ struct Fixture {
         std::string const& v = variant;
         if ( v == "freelist" ) L.reset( new FL<ci::FreeList>( N ));
         else if ( v == "tagged" ) L.reset( new FL<ci::TaggedFreeList>( N ));
-        else if ( v == "cached4_freelist" ) L.reset( new FL< ci::CachedFreeList<ci::FreeList, 4> >( N ));
-        else if ( v == "cached4_tagged" ) L.reset( new FL< ci::CachedFreeList<ci::TaggedFreeList, 4> >( N ));
-        else if ( v == "cached8_freelist" ) L.reset( new FL< ci::CachedFreeList<ci::FreeList, 8, 8> >( N ));
-        else if ( v == "cached8_tagged" ) L.reset( new FL< ci::CachedFreeList<ci::TaggedFreeList, 8, 8> >( N ));
+        else if ( v == "cached4_freelist" ) L.reset( new FL<cached4_fl>( N ));
+        else if ( v == "cached4_tagged" ) L.reset( new FL<cached4_tg>( N ));
+        else if ( v == "cached8_freelist" ) L.reset( new FL<cached8_fl>( N ));
+        else if ( v == "cached8_tagged" ) L.reset( new FL<cached8_tg>( N ));
         else { std::fprintf( stderr, "unknown variant %s\n", v.c_str()); std::exit( 2 ); }
 
         long st = c.optl( "strict", -1 );
         strict = st < 0 ? ( v == "tagged" || v == "cached4_tagged" || v == "cached8_tagged" ) : st != 0;
 
         for ( int i = 0; i <= MAXN; ++i ) { owner[i] = -1; putting[i] = 0; gen[i] = 0; }
-        for ( int t = 0; t < MAXTH; ++t ) slots[t] = 0;
+        // cache slots: all threads on one cell / one cell per thread / random
+        auto opt = c.opt.find( "slots" );
+        g_real_slots = opt != c.opt.end() && opt->second == "real";
+        {
+            unsigned mode = unsigned( r.below( 3 ));
+            size_t base = size_t( r.below( 8 ));
+            for ( int t = 0; t < MAXTH; ++t )
+                slots[t] = mode == 0 ? base : mode == 1 ? base + size_t( t ) : size_t( r.below( 8 ));
+        }
         // distribute the nodes among the list and the threads
         unsigned list_pct = 25 + unsigned( r.below( 50 ));
         int nt = nthreads < 1 ? 1 : nthreads;
@@ -197,7 +232,7 @@ struct Fixture {
         if ( nops < 1 ) nops = 1;
         for ( int t = 0; t < nth; ++t ) {
             int n = 1 + int( r.below( uint64_t( nops )));
-            unsigned style = unsigned( r.below( 4 ));
+            unsigned style = unsigned( r.below( 5 ));
             if ( style == 0 ) {
                 // get; put_last; get; put_last … : re-add a node right after getting it, while another getter may
                 // still hold a reference to it
@@ -206,6 +241,11 @@ struct Fixture {
             else if ( style == 1 ) {
                 // get; put_any; get
                 for ( int i = 0; i < n; ++i ) p[t].push_back( Op( i % 2 == 0 ? "get" : "put_any" ));
+            }
+            else if ( style == 2 ) {
+                // get; get; put_any; get; put_any … : the shape of the ABA scenario of a Treiber-style pop (another
+                // getter has read head = A and A.next = B; this thread takes A and B and puts A back)
+                for ( int i = 0; i < n; ++i ) p[t].push_back( Op( i < 2 || i % 2 == 1 ? "get" : "put_any" ));
             }
             else {
                 unsigned get_pct = 35 + unsigned( r.below( 35 ));
@@ -220,13 +260,16 @@ struct Fixture {
 
     void thread_begin( int tid )
     {
-        if ( tid >= 0 && tid < MAXTH )
-            slots[tid] = std::hash<std::thread::id>()( std::this_thread::get_id());
+        if ( tid >= 0 && tid < MAXTH ) {
+            if ( g_real_slots ) slots[tid] = std::hash<std::thread::id>()( std::this_thread::get_id());
+            else tl_slot = slots[tid];
+        }
     }
     void thread_end( int ) {}
 
     std::vector<long> exec( int t, Op const& op )
     {
+        if ( failed ) return { -1 };
         uint64_t inv = tick();
         if ( op.name != "get" && !own[t].empty()) {
             int v;
@@ -250,7 +293,9 @@ struct Fixture {
             stable[n] = owner[n] == -1 && putting[n] == 0;
             snap[n] = gen[n];
         }
+        ++getting;
         int v = L->get();
+        --getting;
         ++n_get;
         if ( v < 0 ) {
             fail( "invented get() returned a pointer that is not a node; thread " + std::to_string( t ));
@@ -266,14 +311,17 @@ struct Fixture {
         }
         else {
             ++n_empty;
+            // a get() of another thread that is still in progress may already have unlinked one of the candidates:
+            // the verdict needs more candidates than such calls (sound; exact when there is none)
+            int cnt = 0, witness = 0;
             for ( int n = 1; n <= N; ++n )
-                if ( stable[n] && owner[n] == -1 && gen[n] == snap[n] ) {
-                    ++n_relaxed_empty;
-                    if ( strict )
-                        fail( "empty-while-nonempty get() by thread " + std::to_string( t ) + " returned nullptr while node "
-                              + std::to_string( n ) + " was in the list during the whole call" );
-                    break;
-                }
+                if ( stable[n] && owner[n] == -1 && gen[n] == snap[n] ) { ++cnt; witness = n; }
+            if ( cnt > getting ) {
+                ++n_relaxed_empty;
+                if ( strict )
+                    fail( "empty-while-nonempty get() by thread " + std::to_string( t ) + " returned nullptr while node "
+                          + std::to_string( witness ) + " was in the list during the whole call" );
+            }
         }
         uint64_t res = tick();
         hist.push_back( HRec{ t, inv, res, false, v } );
@@ -288,7 +336,7 @@ struct Fixture {
             if ( owner[n] == -1 ) expect.push_back( n );
         bool seen[MAXN + 1] = {};
         bool terminated = false;
-        for ( int i = 0; i < N + 2; ++i ) {
+        for ( int i = 0; i < N + 2 && !failed; ++i ) {
             uint64_t inv = tick();
             int v = L->get();
             uint64_t res = tick();
@@ -302,8 +350,8 @@ struct Fixture {
         }
         if ( !terminated && !failed ) fail( "drain-not-terminating" );
         for ( int n : expect )
-            if ( !seen[n] ) fail( "lost-node " + std::to_string( n ) + " was put and never taken but the quiescent drain did not find it" );
-        if ( terminated && !L->empty()) fail( "not-empty-after-drain empty() is false after get() returned nullptr" );
+            if ( !seen[n] && !failed ) fail( "lost-node " + std::to_string( n ) + " was put and never taken but the quiescent drain did not find it" );
+        if ( terminated && !failed && !L->empty()) fail( "not-empty-after-drain empty() is false after get() returned nullptr" );
 
         for ( int n : initial )
             out << "H 90 0 0 put " << n << " : 1\n";
